@@ -159,10 +159,10 @@ Proof.
   induction steps as [|a steps IH]; intros retries re rn; rewrite loop_unfold.
   - destruct (cond retries rn); exists []; cbn; rewrite app_nil_r; auto.
   - destruct (cond retries rn); [|exists []; cbn; rewrite app_nil_r; split; [auto|lia]].
-    destruct a as [|c|o|c o]; try (exists []; cbn; rewrite app_nil_r; split; [reflexivity|lia]);
-      destruct o as [|e|e]; try (eexists [_]; cbn; split; [reflexivity|lia]);
+    destruct a as [|c|o|c o]; try (exists []; cbn; rewrite app_nil_r; (split; [reflexivity|lia]));
+      destruct o as [|e|e]; try (eexists [_]; cbn; (split; [reflexivity|lia]));
       destruct (IH retries (add_err re (EUser e)) (rn ++ [Rec e])) as (l & E & L);
-      exists (Rec e :: l); rewrite E, <- app_assoc; cbn; split; [reflexivity|lia].
+      exists (Rec e :: l); rewrite E, <- app_assoc; cbn; (split; [reflexivity|lia]).
 Qed.
 
 (* every run but the last failed recoverably; success iff the last run succeeded *)
@@ -266,13 +266,11 @@ Proof.
   { intros. rewrite loop_unfold.
     assert (cond retries ran' = false) as ->; [|reflexivity].
     unfold cond. apply orb_false_iff. split; [apply Z.eqb_neq; auto|apply Z.ltb_ge; lia]. }
-  destruct s1 as [|a s1'] eqn:E.
+  destruct s1 as [|a s1'].
   - cbn [app flat_map]. rewrite app_nil_r. cbn [length] in Hl. rewrite Fin by lia.
     eexists; split; [reflexivity|split; [reflexivity|intros; apply ring_ok_set_main; auto]].
-  - rewrite <- E in *. clear E.
-    destruct (exists_last (l := s1)) as (s1i & z & Ez); [intros ->; subst; discriminate|].
-    (* simpler: go on through all of s1 except that the limit holds until before the last run *)
-    subst s1. rewrite forallb_app in Hc. apply andb_true_iff in Hc as [Hc1 Hc2].
+  - destruct (@exists_last _ (a :: s1')) as (s1i & z & Ez); [discriminate|].
+    rewrite Ez in *. clear Ez a s1'. rewrite forallb_app in Hc. apply andb_true_iff in Hc as [Hc1 Hc2].
     rewrite app_length in Hl. cbn [length] in Hl.
     assert (Hlt : retries = -1 \/ Z.of_nat (length ran + length s1i) < retries) by (right; lia).
     rewrite <- app_assoc.
@@ -376,7 +374,6 @@ Proof.
         destruct IH as [(e' & L & M & Lt)|[X|[X|X]]]; auto.
         left. exists e'. repeat split; auto. lia.
       - intros H; injection H as <-. left. exists e. rewrite last_last, app_length. cbn. repeat split; auto. lia. }
-    assert (Sh : forall o (R : result), (length ran < length (RetryLoop.ran R))%nat \/ True -> True) by auto.
     destruct a as [|c|o|c o]; cbn [res RetryLoop.ran].
     + intros H; injection H as <-. right; right; left. rewrite Nat.sub_diag. cbn. auto.
     + intros H; injection H as <-. right; right; right. exists c. rewrite Nat.sub_diag. cbn. auto.
@@ -406,4 +403,231 @@ Proof.
       set (R := match o with Ok => _ | Rec e => _ | Fatal e => _ end) in *.
       replace (length (RetryLoop.ran R) - length ran)%nat with (S (length (RetryLoop.ran R) - length ran - 1)) by lia.
       cbn [nth_error]. exact Q.
+Qed.
+
+(* after an event that ends the call (anything but a recoverable failure) f is not run again *)
+Lemma loop_stops : forall steps k s retries re rn,
+  nth_error steps k = Some s -> continuing s = false ->
+  (length (RetryLoop.ran (loop retries re rn steps)) <= length rn + k + length (out_of s))%nat.
+Proof.
+  induction steps as [|a steps IH]; intros k s retries re rn Hn Hs.
+  - destruct k; discriminate.
+  - rewrite loop_unfold. destruct (cond retries rn); cbn [RetryLoop.ran]; [|lia].
+    destruct k as [|k]; cbn [nth_error] in Hn.
+    + injection Hn as ->.
+      destruct s as [|c|o|c o]; cbn [RetryLoop.ran out_of length]; try lia;
+        destruct o; try discriminate; cbn [RetryLoop.ran]; rewrite app_length; cbn; lia.
+    + destruct a as [|c|o|c o]; cbn [RetryLoop.ran]; try lia;
+        destruct o as [|e|e]; cbn [RetryLoop.ran]; try (rewrite app_length; cbn; lia);
+        specialize (IH k s retries (add_err re (EUser e)) (rn ++ [Rec e]) Hn Hs);
+        rewrite app_length in IH; cbn [length] in IH; lia.
+Qed.
+
+(* ------------------------------------------------------------------ RetryWithCtx *)
+Section Run.
+Variables (retries keep : Z).
+
+Lemma run_pre_ended : forall c first steps,
+  retry_run retries keep (Some c) first steps = mkRes [] (RetErr (mkFE (ECtx c) [] 0 0 0)).
+Proof. reflexivity. Qed.
+
+Lemma run_first_ok : forall steps, retry_run retries keep None Ok steps = mkRes [Ok] RetNil.
+Proof. reflexivity. Qed.
+
+Lemma run_first_fatal : forall e steps, exists fe,
+  retry_run retries keep None (Fatal e) steps = mkRes [Fatal e] (RetErr fe) /\
+  ferr_is fe (EUser e) = true /\ main fe = ERetriesExceeded.
+Proof. intros. eexists. split; [reflexivity|]. split; [|reflexivity]. cbn. rewrite Nat.eqb_refl. reflexivity. Qed.
+
+Lemma flat_out_len : forall s, forallb continuing s = true -> length (flat_map out_of s) = length s.
+Proof.
+  induction s as [|b t IH]; intros H; [reflexivity|].
+  cbn [forallb] in H. apply andb_true_iff in H as [Hb Ht].
+  cbn [flat_map]. rewrite app_length, IH by exact Ht.
+  destruct b as [|c|o|c o]; try discriminate; reflexivity.
+Qed.
+
+(* stops at once, with the exact result, whatever follows in the history *)
+Lemma run_stops_at_once : forall e0 s1 ev s2,
+  forallb continuing s1 = true ->
+  (retries = -1 \/ Z.of_nat (length s1) + 1 < retries) ->
+  let R := retry_run retries keep None (Rec e0) (s1 ++ ev :: s2) in
+  let before := Rec e0 :: flat_map out_of s1 in
+  match ev with
+  | StRun Ok | StRunCtxEnded _ Ok => ran R = before ++ [Ok] /\ res R = RetNil
+  | StRun (Fatal e) | StRunCtxEnded _ (Fatal e) =>
+      ran R = before ++ [Fatal e] /\ exists fe, res R = RetErr fe /\ main fe = EUser e
+  | StCtx c => ran R = before /\ exists fe, res R = RetErr fe /\ main fe = ECtx c
+  | StExceeds => ran R = before /\ exists fe, res R = RetErr fe /\ main fe = EWaitExceedsDeadline
+  | StRun (Rec _) | StRunCtxEnded _ (Rec _) => True
+  end.
+Proof.
+  intros e0 s1 ev s2 Hc Hl. cbn zeta. unfold retry_run.
+  assert (Hl' : retries = -1 \/ Z.of_nat (length [Rec e0] + length s1) < retries)
+    by (cbn [length]; destruct Hl; [left; auto|right; lia]).
+  destruct (loop_continue s1 (ev :: s2) retries (new_ferror (EUser e0) keep) [Rec e0] Hc Hl')
+    as (re' & E & _ & _).
+  rewrite E, loop_unfold.
+  assert (cond retries ([Rec e0] ++ flat_map out_of s1) = true) as ->.
+  { apply cond_true_iff. rewrite app_length, flat_out_len by exact Hc. cbn [length] in *. lia. }
+  cbn [app].
+  destruct ev as [|c|o|c o]; try destruct o; cbn [ran res]; auto;
+    split; try reflexivity; eexists; split; reflexivity.
+Qed.
+
+Lemma run_stops : forall pre first steps k s,
+  nth_error steps k = Some s -> continuing s = false ->
+  (runs (retry_run retries keep pre first steps) <= 1 + k + length (out_of s))%nat.
+Proof.
+  intros pre first steps k s Hn Hs. unfold runs, retry_run.
+  destruct pre; [cbn; lia|]. destruct first; try (cbn; lia).
+  pose proof (loop_stops steps k s retries (new_ferror (EUser e) keep) [Rec e] Hn Hs) as L.
+  cbn [length] in L. lia.
+Qed.
+
+Lemma run_shape : forall pre first steps,
+  let R := retry_run retries keep pre first steps in
+  forallb is_rec (removelast (ran R)) = true /\ (res R = RetNil <-> last (ran R) (Rec 0) = Ok).
+Proof.
+  intros pre first steps. cbn zeta. unfold retry_run.
+  destruct pre; [cbn; split; [reflexivity|split; discriminate]|].
+  destruct first; try (cbn; split; [reflexivity|split; (reflexivity || discriminate)]).
+  pose proof (loop_shape steps retries (new_ferror (EUser e) keep) [Rec e] ltac:(discriminate) eq_refl) as H.
+  cbn zeta in H. tauto.
+Qed.
+
+Lemma run_success_iff_last_ok : forall pre first steps,
+  let R := retry_run retries keep pre first steps in
+  res R = RetNil <-> exists l, ran R = l ++ [Ok].
+Proof.
+  intros. subst R. destruct (run_shape pre first steps) as [_ H]. rewrite H. split.
+  - intros L. destruct (ran (retry_run retries keep pre first steps)) as [|a t] eqn:E; [discriminate|].
+    exists (removelast (a :: t)). rewrite <- L. apply app_removelast_last. discriminate.
+  - intros [l ->]. apply last_last.
+Qed.
+
+Lemma run_all_but_last_rec : forall pre first steps l o,
+  ran (retry_run retries keep pre first steps) = l ++ [o] -> forallb is_rec l = true.
+Proof.
+  intros. destruct (run_shape pre first steps) as [H1 _]. cbn zeta in H1.
+  rewrite H, removelast_last in H1. exact H1.
+Qed.
+
+Lemma run_runs_ge1 : forall first steps, (1 <= runs (retry_run retries keep None first steps))%nat.
+Proof.
+  intros. unfold runs, retry_run. destruct first; try (cbn; lia).
+  destruct (loop_ran_mono steps retries (new_ferror (EUser e) keep) [Rec e]) as (l & -> & _).
+  cbn. lia.
+Qed.
+
+Lemma run_runs_le : forall pre first steps, retries <> -1 ->
+  Z.of_nat (runs (retry_run retries keep pre first steps)) <= Z.max 1 retries.
+Proof.
+  intros. unfold runs, retry_run. destruct pre; [cbn; lia|]. destruct first; try (cbn; lia).
+  apply loop_runs_le; auto. cbn. lia.
+Qed.
+
+Lemma run_kept_bound : forall pre first steps fe,
+  ret_fe (res (retry_run retries keep pre first steps)) = Some fe ->
+  Z.of_nat (length (others fe)) <= Z.max 1 keep.
+Proof.
+  intros pre first steps fe. unfold retry_run.
+  destruct pre; [cbn; intros H; injection H as <-; cbn; lia|].
+  destruct first; cbn [res ret_fe]; try discriminate.
+  - intros H. apply (loop_ring _ _ _ _ keep) in H; [apply H|apply ring_ok_new].
+  - intros H; injection H as <-. cbn. lia.
+Qed.
+
+Lemma run_kept_seen : forall pre first steps fe,
+  ret_fe (res (retry_run retries keep pre first steps)) = Some fe ->
+  incl (others fe) (errs_seen (ran (retry_run retries keep pre first steps))).
+Proof.
+  intros pre first steps fe. unfold retry_run.
+  destruct pre; [cbn; intros H; injection H as <-; cbn; intros x []|].
+  destruct first; cbn [res ret_fe ran]; try discriminate.
+  - apply loop_others_seen. cbn. intros x Hx; exact Hx.
+  - intros H; injection H as <-. cbn. intros x Hx; exact Hx.
+Qed.
+
+Lemma run_exhaust : forall e0 s1 s2,
+  forallb continuing s1 = true -> retries <> -1 ->
+  Z.of_nat (length s1) + 1 = Z.max 1 retries ->
+  let R := retry_run retries keep None (Rec e0) (s1 ++ s2) in
+  ran R = Rec e0 :: flat_map out_of s1 /\ exists fe, res R = RetErr fe /\ main fe = ERetriesExceeded.
+Proof.
+  intros e0 s1 s2 Hc Hf Hl. cbn zeta. unfold retry_run.
+  destruct (loop_exhaust s1 s2 retries (new_ferror (EUser e0) keep) [Rec e0] Hc Hf) as (fe & E & M & _).
+  - cbn [length]. lia.
+  - rewrite E. cbn [ran res app]. split; [reflexivity|]. exists fe. auto.
+Qed.
+
+Lemma run_reason : forall pre first steps fe,
+  let R := retry_run retries keep pre first steps in
+  res R = RetErr fe ->
+  (exists c, pre = Some c /\ runs R = O /\ ferr_is fe (ECtx c) = true) \/
+  (pre = None /\ exists e, last (ran R) Ok = Fatal e /\ ferr_is fe (EUser e) = true) \/
+  (pre = None /\ retries <> -1 /\ Z.of_nat (runs R) = Z.max 1 retries /\ ferr_is fe ERetriesExceeded = true) \/
+  (pre = None /\ nth_error steps (runs R - 1) = Some StExceeds /\ ferr_is fe EWaitExceedsDeadline = true) \/
+  (pre = None /\ exists c, nth_error steps (runs R - 1) = Some (StCtx c) /\ ferr_is fe (ECtx c) = true).
+Proof.
+  intros pre first steps fe. cbn zeta.
+  destruct pre as [c|].
+  - intros H. rewrite run_pre_ended in H |- *. cbn [res] in H. injection H as <-. left. exists c.
+    split; [reflexivity|split; [reflexivity|apply ferr_is_no_others]].
+  - destruct first as [|e|e].
+    + cbn. discriminate.
+    + intros H.
+      pose proof (run_runs_le None (Rec e) steps) as LE.
+      pose proof (run_runs_ge1 (Rec e) steps) as GE.
+      unfold runs, retry_run in *.
+      pose proof (loop_reason steps retries (new_ferror (EUser e) keep) [Rec e] fe H) as Q.
+      cbn zeta in Q. cbn [length] in Q.
+      destruct Q as [(e' & L & M & _)|[(M & F & Lim)|[(N & M)|(c & N & M)]]].
+      * right; left. split; [reflexivity|]. exists e'. split; [exact L|]. apply ferr_is_main_eq, M.
+      * right; right; left. repeat split; auto; [specialize (LE F); lia|apply ferr_is_main_eq, M].
+      * right; right; right; left. repeat split; auto. apply ferr_is_main_eq, M.
+      * right; right; right; right. split; [reflexivity|]. exists c. split; [exact N|]. apply ferr_is_main_eq, M.
+    + intros H. right; left. split; [reflexivity|]. exists e.
+      cbn in H. injection H as <-. split; [reflexivity|]. cbn. rewrite Nat.eqb_refl. reflexivity.
+Qed.
+
+Lemma run_forever : forall e0 s1,
+  forallb continuing s1 = true -> retries = -1 ->
+  exists fe, retry_run retries keep None (Rec e0) s1 = mkRes (Rec e0 :: flat_map out_of s1) (RetMore fe).
+Proof.
+  intros e0 s1 Hc Hf. unfold retry_run.
+  destruct (loop_continue s1 [] retries (new_ferror (EUser e0) keep) [Rec e0] Hc (or_introl Hf))
+    as (re' & E & _ & _).
+  rewrite app_nil_r in E. rewrite E, loop_unfold.
+  assert (cond retries ([Rec e0] ++ flat_map out_of s1) = true) as -> by (apply cond_true_iff; auto).
+  exists re'. reflexivity.
+Qed.
+
+End Run.
+
+Lemma run_below_one : forall retries keep pre first steps,
+  retries <> -1 -> retries < 1 ->
+  retry_run retries keep pre first steps = retry_run 1 keep pre first steps.
+Proof.
+  intros. unfold retry_run. destruct pre; [reflexivity|]. destruct first; try reflexivity.
+  apply loop_below_one; auto.
+Qed.
+
+Lemma run_once : forall retries keep first steps,
+  retries <> -1 -> retries <= 1 -> runs (retry_run retries keep None first steps) = 1%nat.
+Proof.
+  intros. pose proof (run_runs_le retries keep None first steps H).
+  pose proof (run_runs_ge1 retries keep first steps). lia.
+Qed.
+
+(* the runtime's choice between two ready select cases lets f run after the context has ended *)
+Definition ctx_ended_at (s : step) : bool :=
+  match s with StCtx _ | StRunCtxEnded _ _ => true | _ => false end.
+
+Lemma run_after_ctx_end : exists retries keep first steps k s,
+  nth_error steps k = Some s /\ ctx_ended_at s = true /\
+  (1 + k < runs (retry_run retries keep None first steps))%nat.
+Proof.
+  exists 3, 0, (Rec 0%nat), [StRunCtxEnded Canceled (Rec 1%nat)], O, (StRunCtxEnded Canceled (Rec 1%nat)).
+  vm_compute. repeat split; auto.
 Qed.
